@@ -27,6 +27,10 @@ def main(argv):
     for mk in entry["units"]:
         units.extend(u for u in mk(tier) if prop in u.props)
     extra = entry.get("standins", [])
+    only = os.environ.get("PYVC_ONLY")            # debugging aid: run the units whose name contains this text, no stand-ins
+    if only:
+        units = [u for u in units if only in u.name]
+        extra = []
     replay_fn = entry.get("replay")
     return vu.run_check(prop, units, tier, seed, level=entry["level"], technique_text=entry["technique"],
                         trusted_base=entry.get("trusted_base", []), replay_fn=replay_fn, extra_checks=extra,
